@@ -232,6 +232,38 @@ class Analysis:
                 todo.extend(m for m, _l in n.succs)
         return out
 
+    def live_functions(self):
+        """Functions reachable from the program's entry points: compiling and
+        running a job, the job controller, the web tier, discovery, the
+        snapshot generators, the configuration functions, and every method of
+        the device wrapper classes. What is not in here is dead code."""
+        if 'live' in self._memo:
+            return self._memo['live']
+        roots = []
+        for f in self.repo.all_functions():
+            m = f.module.name
+            if m.startswith('bardolph.fakes'):
+                continue
+            public = not f.name.startswith('_') or f.name == '__init__'
+            if f.name in ('configure', 'main') and f.cls is None:
+                roots.append(f)
+            elif f.cls is not None and public and (
+                    m.startswith(('web.', 'bardolph.controller.script_job',
+                                  'bardolph.lib.job_control',
+                                  'bardolph.controller.light_set',
+                                  'bardolph.controller.lifx_lan',
+                                  'bardolph.controller.snapshot',
+                                  'bardolph.lib.clock',
+                                  'bardolph.lib.std_out_output'))
+                    or f.cls.name in ('Parser', 'Machine', 'Lex', 'TimePattern',
+                                      'ColorMatrix', 'SortedList')):
+                roots.append(f)
+            elif f.cls is None and m.startswith('web.'):
+                roots.append(f)
+        live = set(self.rs.reachable(roots, kinds=('call', 'property', 'spawn')))
+        self._memo['live'] = live
+        return live
+
     @staticmethod
     def canonical_atom(e):
         """(text, polarity): a condition and its negation share the text.
